@@ -299,3 +299,10 @@ def run(case):
         if ok4:
             out.check(np.array_equal(to_images(r4, c["out_order"]), exp2), "flip:stale_file_content_after_rewrite", "")
     return out
+
+
+# rejected calls that run before every case (vlib/faults.py): nothing they leave behind - module state, library options,
+# stray files - may make the valid calls of the case violate the statement
+from vlib import faults as _faults  # noqa: E402
+
+fault_calls = _faults.for_property(ID)
